@@ -13,9 +13,11 @@ RULE = ("histories of drop-in operations (add / re-add / remove / failing add: u
         "hook that cannot be instantiated, malformed field, target known to the adaptor's IR but not to the engine = "
         "partial-add cleanup) over tags a,b,c against 1-3 base rulesets with every combination of the three permission bits, "
         "multi-ruleset drop-in files, base and drop-in prekill hooks; one probe tick after each group of operations. "
-        "quick: every operation sequence of length <= 3 over a 15-letter alphabet (3 tags x 5 kinds) + 2000 random histories "
-        "of up to 25 operations, half of them with a twin history (same history without one tag) for reversibility; "
-        "thorough: length <= 4 and 40000 random. non-trivial = at least two accepted adds and (a removal, a refused add or a re-add)")
+        "quick: every operation sequence of length <= 3 over a 15-letter alphabet (3 tags x 5 kinds: remove, add one ruleset, "
+        "add two rulesets, add refused by the engine after two insertions, add with unknown target) with both base rulesets "
+        "opened up, every sequence of length 1 for each of the 64 permission combinations, + 2000 random histories "
+        "of up to 25 operations (random permissions), half of them with a twin history (same history without one tag) for "
+        "reversibility; thorough: length <= 4, length <= 2 x 64 combinations and 40000 random. non-trivial = at least two accepted adds and (a removal, a refused add or a re-add)")
 ASSUMPTIONS = [
     "plugins and prekill hooks are scripted (harness/h_dropin.cpp); a hook's canRunOnCgroup is a set of probe names",
     "rulesets have no `cgroup` (ruleset-level cgroup instances are C11)",
@@ -208,15 +210,13 @@ def add_twin(rng, sc):
 KINDS = ["R", "A0", "A1", "AX", "AU"]
 
 
-def exhaustive(maxlen):
-    """every operation sequence up to maxlen over 3 tags x 5 kinds; the permission bits of the two base rulesets
-    cycle through all 64 combinations"""
+def exhaustive(maxlen, perms=((7, 6),)):
+    """every operation sequence up to maxlen over 3 tags x 5 kinds, for each given pair of permission-bit
+    combinations of the two base rulesets (default: r0 opens everything up and is disabled on drop-in, r1 opens
+    everything up and stays enabled)"""
     letters = [(t, k) for t in TAGS for k in KINDS]
-    n = 0
     for L in range(1, maxlen + 1):
-        for seq in itertools.product(letters, repeat=L):
-            n += 1
-            p0, p1 = n % 8, (n // 8) % 8
+        for seq, (p0, p1) in itertools.product(itertools.product(letters, repeat=L), perms):
             base = [{"rid": 0, "groups": [{"gid": 0, "dets": [1]}], "actions": [2], "delay": "0", "dropin": perm_of(p0)},
                     {"rid": 1, "groups": [{"gid": 10, "dets": [3]}], "actions": [4], "delay": "0", "dropin": perm_of(p1)}]
             ghost = {"rid": 9, "groups": [{"gid": 90, "dets": [5]}], "actions": [6], "dropin": perm_of(6)}
@@ -252,6 +252,9 @@ def exhaustive(maxlen):
 def gen(rng, tier):
     if tier != "search":
         for s in exhaustive(4 if tier == "thorough" else 3):
+            yield s
+        # every combination of the 2 x 3 permission bits against every short sequence
+        for s in exhaustive(2 if tier == "thorough" else 1, [(a, b) for a in range(8) for b in range(8)]):
             yield s
     n = {"quick": 2000, "thorough": 40000, "search": 8000}[tier]
     for i in range(n):
